@@ -16,13 +16,17 @@ Definition r_spec : spec :=
                       t_fields := [ {| f_name := s "title"; f_type := FPrim TStr; f_unique := false; f_default := None |} ];
                       t_parent := None |} ] |}.
 Definition rop c sc n v := {| o_code := c; o_scope := sc; o_name := s n; o_value := v |}.
+Definition after (o : op) : storage := match apply r_spec o [] with Ok m => m | Err _ => [] end.
+Definition o_mem := rop OSet Database "mem" (VInt (-5)).
+Definition o_bool := rop OSet Session "anint" (VBool true).
+Definition o_ui := rop OSet Instance "ui" (VList [VDict [(s "title", VStr (s "T"))]]).
 
 (* "a value outside the range is rejected" and "JSON loads back": a negative size is accepted for a
    memory setting, and the JSON produced for the resulting map does not load *)
 Theorem C19_json_roundtrip_refuted :
   exists sp o m', apply sp o [] = Ok m' /\ json_roundtrip sp m' = Err EInvalidValue.
 Proof.
-  exists r_spec, (rop OSet Database "mem" (VInt (-5))). eexists. split; vm_compute; reflexivity.
+  exists r_spec, o_mem, (after o_mem). split; vm_compute; reflexivity.
 Qed.
 Print Assumptions C19_json_roundtrip_refuted.
 
@@ -32,8 +36,9 @@ Theorem C19_bool_for_int_refuted :
                     /\ find_setting (sp_settings sp) (o_name o) = Some
                          {| s_name := s "anint"; s_type := SPrim TInt; s_set_of := false; s_default := VInt 0; s_secret := false |}.
 Proof.
-  exists r_spec, (rop OSet Session "anint" (VBool true)). eexists. eexists.
-  split; [vm_compute; reflexivity|]. split; [vm_compute; reflexivity|]. split; reflexivity.
+  exists r_spec, o_bool, (after o_bool),
+    {| v_value := VBool true; v_source := g_src_session; v_scope := Session; v_secret := false |}.
+  repeat split; vm_compute; reflexivity.
 Qed.
 Print Assumptions C19_bool_for_int_refuted.
 
@@ -42,7 +47,6 @@ Print Assumptions C19_bool_for_int_refuted.
 Theorem C19_single_object_set_refuted :
   exists sp o m', apply sp o [] = Ok m' /\ to_json sp m' = Err EAttr.
 Proof.
-  exists r_spec, (rop OSet Instance "ui" (VList [VDict [(s "title", VStr (s "T"))]])). eexists.
-  split; vm_compute; reflexivity.
+  exists r_spec, o_ui, (after o_ui). split; vm_compute; reflexivity.
 Qed.
 Print Assumptions C19_single_object_set_refuted.
